@@ -31,7 +31,7 @@ def main():
                 subprocess.run(["git", "-C", "/repo", "worktree", "add", "--detach", wt, head], stdout=subprocess.DEVNULL, stderr=subprocess.DEVNULL)
             sh("git checkout -q -- . && git clean -fdq && git checkout -q --detach %s" % head, wt)
             res = {"id": pid, "variant": v, "base": head}
-            rc, out = sh("git apply --3way %s/patch.diff && git reset -q" % d, wt)
+            rc, out = sh("(git apply --3way %s/patch.diff && git reset -q) || (git reset -q --hard HEAD && patch -p1 --fuzz=3 -l -s < %s/patch.diff && find . -name '*.orig' -delete)" % (d, d), wt)
             res["applies"] = rc == 0
             if rc != 0:
                 res["apply_output"] = out[-2000:]
